@@ -18,6 +18,7 @@ import Martian.SemaphoreSys
 import Proofs.SemaphoreCaller
 import Proofs.SemaphoreSysLive
 import Proofs.SemaphoreQueue
+import Proofs.SemaphoreRefresh
 import Gen.Facts
 
 namespace Props.C12
@@ -852,6 +853,121 @@ theorem no_waiter_fits_last_observation (s : Sem) (op : SemOp) (c : Int)
   rw [hc] at hn
   exact hn
 
+/-! ## The availability-update path: `refreshResources` (caller arithmetic + semaphore)
+
+Model: Martian/SemaphoreRefresh.lean — the arguments `refreshResources` computes
+from what the OS reports (`Obs`), fed to `step`.  "Never stalls" here: the
+update must not make the grantable size smaller than what the OS offers, so a
+job that fits the limits is not parked for ever. -/
+
+section Refresh
+open Martian.SemaphoreRefresh
+
+/-- **An idle (or honest) refresh restores the full size.**  If the usage of the
+process tree below mrp, in whole MB rounded up, is at most what is reserved (in
+particular nothing running: 0 ≤ 0) and free + that usage reaches the limit, the
+memory semaphore's current size after `refreshResources` is exactly the limit. -/
+theorem idle_refresh_restores_full_size (s : Sem) (o : Obs)
+    (hu : ceilMB o.rss ≤ s.reserved) (hf : s.max ≤ ceilMB o.actualFree + ceilMB o.rss) :
+    (step s (refreshMemOp o)).1.cur = s.max := by
+  simp only [refreshMemOp, memArgs, step_updFreeUsed_cur]
+  exact freeUsedCur_full s _ _ hu hf
+
+/-- the same in bytes for the idle case: nothing below mrp uses memory, the OS
+has at least the limit free -/
+theorem idle_refresh_full_size_bytes (s : Sem) (o : Obs) (hr : o.rss = 0) (h0 : 0 ≤ s.reserved)
+    (hf : s.max * MB ≤ o.actualFree) : (step s (refreshMemOp o)).1.cur = s.max := by
+  apply idle_refresh_restores_full_size
+  · rw [hr, ceilMB_zero]; exact h0
+  · rw [hr, ceilMB_zero]; have := ceilMB_ge o.actualFree s.max hf; omega
+
+/-- **A refresh never parks a job that fits.**  Under the same hypotheses, after
+the refresh the queue is empty or its head does not fit `maxSize - reserved`:
+whoever fits the limit has been granted by this very call. -/
+theorem refresh_never_parks_a_fitting_job (s : Sem) (o : Obs) (hs : NoLost s)
+    (hu : ceilMB o.rss ≤ s.reserved) (hf : s.max ≤ ceilMB o.actualFree + ceilMB o.rss) :
+    match (step s (refreshMemOp o)).1.waiters with
+    | [] => True
+    | w :: _ => s.max - (step s (refreshMemOp o)).1.reserved < w.2 := by
+  apply no_waiter_fits_last_observation s (refreshMemOp o) s.max _ hs
+  simp only [refreshMemOp, memArgs, observedSize, Option.some.injEq]
+  exact freeUsedCur_full s _ _ hu hf
+
+/-- … and with nobody waiting, the next request that fits `maxSize - reserved`
+(in particular, after an idle refresh, a lone job asking for the whole limit)
+is granted at once. -/
+theorem limit_job_granted_after_refresh (s : Sem) (o : Obs) (id : Nat) (n : Int)
+    (hw : s.waiters = []) (hu : ceilMB o.rss ≤ s.reserved)
+    (hf : s.max ≤ ceilMB o.actualFree + ceilMB o.rss) (hn : n ≤ s.max - s.reserved) :
+    (step (step s (refreshMemOp o)).1 (.acquire id n)).2 = [.grant id n] := by
+  have hc := freeUsedCur_full s _ _ hu hf
+  simp only [refreshMemOp, memArgs, step, setCur_noWaiters s _ hw, hc, hw]
+  simp [hn]
+
+/-- **More free memory never gives a smaller size** (same tree usage). -/
+theorem more_free_memory_never_smaller_size (s : Sem) (o1 o2 : Obs)
+    (h : o1.actualFree ≤ o2.actualFree) (hr : o1.rss = o2.rss) :
+    (step s (refreshMemOp o1)).1.cur ≤ (step s (refreshMemOp o2)).1.cur := by
+  simp only [refreshMemOp, memArgs, step_updFreeUsed_cur, hr]
+  exact freeUsedCur_mono s _ _ _ (ceilMB_mono _ _ h)
+
+/-- vmem: while the address space of the tree below mrp (whole MB) is within
+the reservations, the refresh restores the full vmem limit. -/
+theorem refresh_vmem_full_when_usage_within_reservations (s : Sem) (o : Obs)
+    (h : o.vmem / MB ≤ s.reserved) : (step s (refreshVmemOp s.max o)).1.cur = s.max := by
+  simp only [refreshVmemOp, vmemArg, step_updActual_cur]
+  split
+  · rfl
+  · omega
+
+/-- process count: usage within the reservations and enough head-room under the
+rlimit ⇒ full size -/
+theorem refresh_procs_full_size (s : Sem) (o : Obs)
+    (hu : o.procs + startingThreadCount ≤ s.reserved)
+    (hf : s.max ≤ o.rlimCur - o.userProcs + (o.procs + startingThreadCount)) :
+    (step s (refreshProcsOp o)).1.cur = s.max := by
+  simp only [refreshProcsOp, procsArgs, step_updFreeUsed_cur]
+  exact freeUsedCur_full s _ _ hu hf
+
+/-- **Why mrp's own usage must not be counted** (negative witness, replayed in
+spirit by the harness's worker processes).  1 GB limit, 8 GB free, nothing
+running.  With the tree usage as the code takes it (children only) the size
+stays 1024 and a job asking for the whole limit starts.  If mrp's own 30 MB were
+counted as "usage of the reservations" (30 > reserved = 0) the size becomes
+1024 - 30 = 994, the job is queued, and no number of identical refreshes ever
+grants it. -/
+theorem own_usage_as_reservation_parks_limit_job :
+    let o : Obs := ⟨8 * 1024 * MB, 0, 0, 0, 0, 4096, 100⟩
+    let o' := o.withOwn (30 * MB) (700 * MB) 12
+    let ok := step (step (Sem.init 1024) (refreshMemOp o)).1 (.acquire 1 1024)
+    let s1 := (step (Sem.init 1024) (refreshMemOp o')).1
+    let r2 := step s1 (.acquire 1 1024)
+    let s4 := (step (step r2.1 (refreshMemOp o')).1 (refreshMemOp o')).1
+    ok.2 = [.grant 1 1024] ∧ s1.cur = 994 ∧ r2.2 = [] ∧ s4.waiters = [(1, 1024)] ∧ s4.cur = 994 := by
+  decide
+
+/-- regenerated: `refreshResources` samples the tree BELOW mrp
+(`GetProcessTreeMemory(os.Getpid(), false, nil)`) -/
+theorem refresh_excludes_own_usage :
+    Gen.refreshTreeIncludesParent = false ∧
+    (Gen.refreshTreeCall_extracted = false ∨ Gen.refreshTreeCall = ["os.Getpid()", "false", "nil"]) := by
+  refine ⟨by decide, ?_⟩
+  first | exact Or.inr rfl | exact Or.inl rfl
+
+/-- regenerated: the argument expressions of the four `Update*` calls are the
+ones `memArgs` / `vmemArg` / `coresArg` / `procsArgs` model -/
+theorem refresh_update_args_ok :
+    Gen.refreshUpdateArgs_extracted = false ∨ Gen.refreshUpdateArgs =
+    [("memMBSem", "UpdateFreeUsed", ["(sysMem.ActualFree + 1024*1024 - 1) / (1024 * 1024)",
+        "(usedMem.Rss + 1024*1024 - 1) / (1024 * 1024)"]),
+     ("vmemMBSem", "UpdateActual", ["self.maxVmemMB - usedMem.Vmem/(1024*1024)"]),
+     ("centcoreSem", "UpdateActual", ["int64((float64(runtime.NumCPU()) - load.One + 0.9) * 100)"]),
+     ("procsSem", "UpdateFreeUsed", ["rlimCur(rlim) - int64(userProcs)",
+        "int64(usedMem.Procs) + startingThreadCount"])] := by
+  first | exact Or.inr rfl | exact Or.inl rfl
+
+end Refresh
+
 /-! ## Cluster mode: reconciliation with the scheduler's queue (queue query)
 
 Model: Martian/SemaphoreQueue.lean (`Pipestance.queryQueue`,
@@ -1138,6 +1254,16 @@ example :
   intro ev hev
   simp only [List.mem_cons, List.mem_nil_iff, or_false] at hev
   rcases hev with rfl | rfl | rfl | rfl <;> simp [Martian.SemaphoreQueue.Ev.reports]
+
+/-- the hypotheses of the refresh theorems are satisfiable: two jobs running (3 MB of rss
+below mrp, 1536 MB reserved), plenty of memory free, a waiter that fits what is left -/
+example :
+    let s : Sem := ⟨2048, 1500, 1536, [(3, 512)]⟩
+    let o : Martian.SemaphoreRefresh.Obs := ⟨50000 * Martian.SemaphoreRefresh.MB, 2500000, 5000000, 2, 0, 4096, 300⟩
+    Martian.SemaphoreRefresh.ceilMB o.rss ≤ s.reserved ∧
+    s.max ≤ Martian.SemaphoreRefresh.ceilMB o.actualFree + Martian.SemaphoreRefresh.ceilMB o.rss ∧
+    NoLost s ∧
+    (step s (Martian.SemaphoreRefresh.refreshMemOp o)).2 = [.grant 3 512, .ret 47955] := by decide
 
 /-- an update that grows the size by 1 wakes the waiter that now fits -/
 example : observedSize ⟨8192, 8091, 0, [(1, 8092)]⟩ (.updActual 8092) = some 8092 ∧
